@@ -21,6 +21,9 @@ EXPLANATION += (
 EXPLANATION += (  # round-3 supplement
     ' F8 no new generated block is started while a frame of the same method already holds evaluated temporaries (emptying the frame with mem::take clears that). F9 the divergence accumulator of `match` is updated on every iteration path of the arm loop. F10 divergence is inherited only from sub-expressions that are always evaluated (not loop bodies, not the right operand of && / ||).'
 )
+EXPLANATION += (
+    ' F11 at every descent into a user sub-expression (which may return early and then drops exactly the registered variables) no owned value is in limbo - stored in an unregistered temporary or already taken out of its frame for a call that is not emitted yet - and no registered aggregate is partly initialised (may-dataflow of limbo tokens per method, cleared at new_block; per-element closures analysed as loops; helpers summarised).'
+)
 ASSUMPTIONS = [
     "lir lowering turns every mir Drop into exactly one call of the type's drop function",
     "the balance of a particular script is not decided",
@@ -721,6 +724,406 @@ def rule_f10(F):
     return r
 
 
+# ---------------------------------------------------------------------------------------------------------------------
+# F11: no sub-expression is lowered while a value is in limbo, or into a registered but partly initialised aggregate
+
+NON_OWNING_TY = {"mir::ty::TyRef::" + x for x in ("UNIT", "NEVER", "BOOL", "U8", "U16", "U32", "U64", "I8", "I16", "I32", "I64", "F32", "F64")}
+BACK_STEPS = {"next", "iter", "iter_mut", "into_iter", "deref", "deref_mut", "index", "index_mut", "unwrap", "clone", "as_ref", "borrow", "rev", "enumerate", "first", "last", "get"}
+
+
+def _mentions(rv):
+    out = []
+    for k in ("o", "a", "b"):
+        if k in rv and mir.is_place_op(rv[k]):
+            out.append(rv[k][1][0])
+    for o in rv.get("ops", []) or []:
+        if mir.is_place_op(o):
+            out.append(o[1][0])
+    if "p" in rv and isinstance(rv["p"], list) and rv["p"]:
+        out.append(rv["p"][0])
+    return out
+
+
+def _forward(b, roots):
+    """Locals that (flow-insensitively) carry a value built from one of `roots`: copies, references, clones, aggregates and
+    collections it was put into, results of calls it was passed to."""
+    cur = set(roots)
+    argc = b.mir["argc"]
+    refs = {}
+    for blk in b.blocks:
+        for st in blk["stmts"]:
+            if st["k"] == "assign" and st["rv"]["k"] == "ref" and len(st["p"]) == 1 and len(st["rv"]["p"]) == 1:
+                refs[st["p"][0]] = st["rv"]["p"][0]
+    src1 = {}
+    for blk in b.blocks:
+        for st in blk["stmts"]:
+            if st["k"] == "assign" and len(st["p"]) == 1 and st["rv"]["k"] in ("use", "cast", "ref", "rawptr"):
+                o = st["rv"].get("o")
+                base = o[1][0] if mir.is_place_op(o) else (st["rv"]["p"][0] if st["rv"]["k"] in ("ref", "rawptr") else None)
+                if base is not None:
+                    src1.setdefault(st["p"][0], set()).add(base)
+    ptr_src = {}
+    for l0 in src1:
+        acc, todo = [], [l0]
+        while todo:
+            x = todo.pop()
+            for y in src1.get(x, ()):
+                if y not in acc and y != l0:
+                    acc.append(y)
+                    todo.append(y)
+        ptr_src[l0] = acc
+    changed = True
+    while changed:
+        changed = False
+        for blk in b.blocks:
+            for st in blk["stmts"]:
+                if st["k"] == "assign" and (st["p"][0] > argc or st["p"][0] == 0) and any(x in cur for x in _mentions(st["rv"])):
+                    tg = [st["p"][0]]
+                    if "*" in st["p"][1:]:
+                        # a store through a pointer: the storage the pointer was taken from carries the value (vec![a, b])
+                        tg += ptr_src.get(st["p"][0], [])
+                    for x in tg:
+                        if x not in cur and (x > argc or x == 0):
+                            cur.add(x)
+                            changed = True
+            t = blk["term"]
+            if t["k"] != "call":
+                continue
+            hit = any(mir.is_place_op(a) and a[1][0] in cur for a in t["args"])
+            if not hit:
+                continue
+            d = t["dest"][0]
+            if d not in cur and (d > argc or d == 0):
+                cur.add(d)
+                changed = True
+            # a value pushed into a local collection makes the collection carry it
+            dn = mir.callee_def(t) or ""
+            if dn.startswith("std::vec::Vec") or dn.startswith("std::collections") or "Extend" in (mir.callee(t) or ""):
+                a0 = t["args"][0] if t["args"] else None
+                if mir.is_place_op(a0) and len(a0[1]) == 1 and a0[1][0] in refs:
+                    tgt = refs[a0[1][0]]
+                    if tgt > argc and tgt not in cur:
+                        cur.add(tgt)
+                        changed = True
+    return cur
+
+
+def _back_roots(b, defs, local, depth=0):
+    """The local(s) a value was taken from through references, clones and iteration (`for x in &args` -> args)."""
+    if depth > 12:
+        return {local}
+    ds = defs.whole_defs(local)
+    if len(ds) != 1:
+        return {local}
+    _, _, kind, s = ds[0]
+    if kind == "assign":
+        rv = s["rv"]
+        if rv["k"] in ("use", "cast") and mir.is_place_op(rv.get("o")):
+            return _back_roots(b, defs, rv["o"][1][0], depth + 1)
+        if rv["k"] == "ref":
+            return _back_roots(b, defs, rv["p"][0], depth + 1)
+        return {local}
+    if kind == "call" and hir.last(mir.callee_def(s) or "") in BACK_STEPS and s["args"] and mir.is_place_op(s["args"][0]):
+        return _back_roots(b, defs, s["args"][0][1][0], depth + 1)
+    return {local}
+
+
+def _agg_def(b, defs, local, depth=0):
+    """The aggregate (or call) that built the value of a temporary, through moves."""
+    ds = defs.whole_defs(local)
+    if len(ds) != 1 or depth > 8:
+        return None
+    _, _, kind, s = ds[0]
+    if kind == "assign":
+        rv = s["rv"]
+        if rv["k"] in ("use", "cast") and mir.is_place_op(rv.get("o")) and len(rv["o"][1]) == 1:
+            return _agg_def(b, defs, rv["o"][1][0], depth + 1)
+        if rv["k"] == "agg":
+            return ("agg", rv)
+        return None
+    return ("call", s)
+
+
+def _const_ty(b, defs, op):
+    c = mir.op_const(op)
+    if c is not None:
+        return c.get("text")
+    if mir.is_place_op(op):
+        r_, _p = mir.origin(b, defs, op[1])
+        if r_.startswith("const:"):
+            return r_[6:]
+    return None
+
+
+def _place_projected(b, defs, op):
+    """Is the Place operand built with a non-empty projection?  (Place::new and `projection: Vec::new()` are whole places.)"""
+    if not mir.is_place_op(op):
+        return False
+    d = _agg_def(b, defs, op[1][0])
+    if d is None:
+        return True
+    if d[0] == "call":
+        return hir.last(mir.callee(d[1]) or "") != "new"
+    rv = d[1]
+    if rv.get("adt") != "mir::Place":
+        return True
+    fs = rv.get("fields") or []
+    if "projection" not in fs:
+        return True
+    po = rv["ops"][fs.index("projection")]
+    if not mir.is_place_op(po):
+        return True
+    pd = _agg_def(b, defs, po[1][0])
+    return not (pd is not None and pd[0] == "call" and (mir.callee_def(pd[1]) or "").endswith("Vec::<T>::new"))
+
+
+def _assign_sites(b, defs):
+    """(block, to-operand, ty-operand, value-operand) of every emitted assignment: do_assign / emit_assign / emit(Instruction::Assign)."""
+    out = []
+    for bi, t in mir.calls(b):
+        n = hir.last(mir.callee(t) or "")
+        if not (mir.callee(t) or "").startswith("mir::lower::"):
+            continue
+        if n in ("do_assign", "emit_assign") and len(t["args"]) >= 4:
+            out.append((bi, t, t["args"][1], t["args"][2], t["args"][3]))
+        elif n == "emit" and len(t["args"]) >= 2 and mir.is_place_op(t["args"][1]):
+            d = _agg_def(b, defs, t["args"][1][1][0])
+            if d and d[0] == "agg" and d[1].get("adt") == "mir::Instruction" and d[1].get("variant") == "Assign":
+                fs = d[1]["fields"]
+                ops = d[1]["ops"]
+                out.append((bi, t, ops[fs.index("to")], ops[fs.index("ty")], ops[fs.index("value")]))
+    return out
+
+
+def visitors(F):
+    """Lowerer methods (and closures) through which a user sub-expression is lowered: everything from which Lowerer::expr is
+    reachable. Lowering a sub-expression may emit an early return (`?`, `return`, accept/reject) that drops exactly the
+    variables registered in the frames at that moment."""
+    bodies = lowerer_bodies(F)
+    by = {b.path: b for b in bodies}
+    edges = {}
+    for b in bodies:
+        out = set()
+        for _, t in mir.calls(b):
+            c = mir.callee(t) or ""
+            if c in by:
+                out.add(c)
+        for blk in b.blocks:
+            for st in blk["stmts"]:
+                if st["k"] == "assign" and st["rv"]["k"] == "agg" and st["rv"].get("ak") == "closure" and st["rv"].get("def") in by:
+                    out.add(st["rv"]["def"])
+        edges[b.path] = out
+    vis = {p for p in by if hir.last(p) == "expr" and "{closure" not in p}
+    changed = True
+    while changed:
+        changed = False
+        for p, out in edges.items():
+            if p not in vis and out & vis:
+                vis.add(p)
+                changed = True
+    return vis
+
+
+def _closures_of(b):
+    clos = {}
+    for blk in b.blocks:
+        for st in blk["stmts"]:
+            if st["k"] == "assign" and st["rv"]["k"] == "agg" and st["rv"].get("ak") == "closure":
+                clos[st["p"][0]] = st["rv"].get("def")
+    return clos
+
+
+def _limbo_flow(b, vis, looping, summ_ret, summ_unreg):
+    """Events and may-dataflow of limbo tokens of one Lowerer method. Returns a dict."""
+    defs = mir.Defs(b)
+    clos = _closures_of(b)
+    argc = b.mir["argc"]
+    ev = {}
+    und = {}
+    reg = {}
+    for bi, t in mir.calls(b):
+        c = mir.callee(t) or ""
+        n = hir.last(c)
+        if c.startswith("mir::lower::") and n == "undropped_tmp":
+            und[t["dest"][0]] = t.get("line")
+        if c.startswith("mir::lower::") and n == "tmp":
+            reg[t["dest"][0]] = bi
+    undf = {u: _forward(b, {u}) for u in und}
+    regf = {u: _forward(b, {u}) for u in reg}
+    sites = _assign_sites(b, defs)
+    site_at = {s_[0]: s_ for s_ in sites}
+    tokens = {}
+    unreg_params = set()
+    for bi, t in mir.calls(b):
+        c = mir.callee(t) or ""
+        n = hir.last(c)
+        e = []
+        cv = [clos.get(a[1][0]) for a in t["args"] if mir.is_place_op(a) and clos.get(a[1][0]) in vis]
+        if c in vis or cv:
+            e.append(("V", c if c in vis else cv[0]))
+        if c.startswith("mir::lower::") and n == "new_block":
+            e.append(("CLEAR",))
+        unreg_args = []
+        if c.startswith("mir::lower::") and n == "remove_live_variable":
+            unreg_args = [1]
+        elif c in summ_unreg:
+            unreg_args = [i - 1 for i in summ_unreg[c]]
+        for ai in unreg_args:
+            if len(t["args"]) > ai and mir.is_place_op(t["args"][ai]):
+                roots = _back_roots(b, defs, t["args"][ai][1][0])
+                tid = ("R", bi, ai)
+                tokens[tid] = ("taken out of its frame by %s at line %s" % (n, t.get("line")), _forward(b, roots), t.get("line"), roots)
+                e.append(("GEN", tid))
+        if c in summ_ret and c not in vis:
+            tid = ("H", bi)
+            tokens[tid] = ("stored in an unregistered temporary by %s at line %s" % (n, t.get("line")), _forward(b, {t["dest"][0]}), t.get("line"))
+            e.append(("GEN", tid))
+        if c.startswith("mir::lower::") and n == "emit_drop" and len(t["args"]) > 1 and mir.is_place_op(t["args"][1]):
+            e.append(("USE", t["args"][1][1][0]))
+        if c.startswith("mir::lower::") and n == "add_live_variable" and len(t["args"]) > 1 and mir.is_place_op(t["args"][1]):
+            e.append(("LIVE", t["args"][1][1][0]))
+        dn = mir.callee_def(t) or ""
+        if dn.endswith("::push") and dn.startswith("std::vec::Vec") and len(t["args"]) > 1 and mir.is_place_op(t["args"][0]) and mir.is_place_op(t["args"][1]):
+            if any("stack_slots" in x for x in deps(b, defs, t["args"][0][1][0])):
+                e.append(("LIVE", t["args"][1][1][0]))
+        if bi in site_at:
+            _, _, to, ty, val = site_at[bi]
+            if mir.is_place_op(val):
+                e.append(("USE", val[1][0]))
+            if mir.is_place_op(to):
+                for u, fw in undf.items():
+                    if to[1][0] in fw and _const_ty(b, defs, ty) not in NON_OWNING_TY:
+                        tid = ("U", u)
+                        tokens[tid] = ("stored in the unregistered temporary created at line %s" % und[u], fw, t.get("line"))
+                        e.append(("GEN", tid))
+        if e:
+            ev[bi] = e
+    nb = len(b.blocks)
+    IN = [set() for _ in range(nb)]
+    OUT = [set() for _ in range(nb)]
+    rets = [bi for bi, blk in enumerate(b.blocks) if blk["term"]["k"] == "return"]
+    found = {}
+    if ev:
+        work = list(range(nb))
+        it = 0
+        while work and it < 50000:
+            it += 1
+            bi = work.pop(0)
+            st = set(IN[bi])
+            for e in ev.get(bi, []):
+                if e[0] == "V":
+                    for tid in st:
+                        found.setdefault((tid, bi), e[1])
+                elif e[0] == "CLEAR":
+                    st = set()
+                elif e[0] == "GEN":
+                    st.add(e[1])
+                elif e[0] in ("USE", "LIVE"):
+                    st = {tid for tid in st if e[1] not in tokens[tid][1]}
+            if st != OUT[bi] or it <= nb:
+                OUT[bi] = st
+                succ = list(mir.succs(b.blocks[bi]))
+                if b.path in looping and bi in rets:
+                    succ.append(0)
+                for sx in succ:
+                    if not st <= IN[sx]:
+                        IN[sx] |= st
+                        if sx not in work:
+                            work.append(sx)
+    returns_limbo = any(0 in tokens[tid][1] for rb in rets for tid in OUT[rb])
+    # a helper unregisters its parameter when the value is still outside the frames when the helper returns
+    # (do_assign / assign_to_var re-home it in a registered destination before they return)
+    for rb in rets:
+        for tid in OUT[rb]:
+            if tid[0] == "R":
+                unreg_params |= {x for x in tokens[tid][3] if 1 <= x <= argc}
+    return {"defs": defs, "ev": ev, "tokens": tokens, "found": found, "sites": sites, "reg": reg, "regf": regf,
+            "returns_limbo": returns_limbo, "unreg_params": unreg_params}
+
+
+def rule_f11(F):
+    """An early return inside a sub-expression (`?`, `return`, accept/reject) drops the variables that are registered in the
+    frames at that moment - nothing else and nothing less.  So at every point where the lowerer descends into a user
+    sub-expression, (a) no owned value may be 'in limbo' - already stored in an unregistered temporary or already taken out of
+    its frame for a callee that has not been called yet (it would leak), and (b) no registered aggregate may be partly
+    initialised (its missing components would be dropped).  Decided per Lowerer method on its MIR: a may-dataflow of limbo tokens
+    within one emitted block (tokens are cleared at new_block: what is live in a different generated block is decided by
+    F3/F8), closures handed to iterator adaptors are analysed as loops, helpers that return such a temporary or unregister
+    their parameter are summarised and count at their call sites."""
+    r = RuleResult("C03.F11", "no sub-expression is lowered while an owned value is outside the frames (limbo) or into a registered, partly initialised aggregate", floor=20)
+    vis = visitors(F)
+    bodies = lowerer_bodies(F)
+    if not vis:
+        r.missing("Lowerer::expr")
+        return r
+    looping = set()
+    for b in bodies:
+        clos = _closures_of(b)
+        for _, t in mir.calls(b):
+            dn = mir.callee_def(t) or ""
+            for a in t["args"]:
+                if mir.is_place_op(a) and a[1][0] in clos and (dn.startswith("std::iter::") or dn.startswith("core::iter::")):
+                    looping.add(clos[a[1][0]])
+    # summaries of helpers (methods that do not themselves descend into sub-expressions)
+    summ_ret, summ_unreg = {}, {}
+    for _round in range(3):
+        changed = False
+        for b in bodies:
+            if b.path in vis or "{closure" in b.path:
+                continue
+            fl = _limbo_flow(b, vis, looping, summ_ret, summ_unreg)
+            if fl["returns_limbo"] and b.path not in summ_ret:
+                summ_ret[b.path] = True
+                changed = True
+            if fl["unreg_params"] and summ_unreg.get(b.path) != fl["unreg_params"] and hir.last(b.path) != "remove_live_variable":
+                summ_unreg[b.path] = set(fl["unreg_params"])
+                changed = True
+        if not changed:
+            break
+    nvisit = 0
+    for b in bodies:
+        fl = _limbo_flow(b, vis, looping, summ_ret, summ_unreg)
+        ev, tokens, found, defs = fl["ev"], fl["tokens"], fl["found"], fl["defs"]
+        if not ev:
+            continue
+        short = hir.last(b.path.split("::{closure")[0]) + ("{closure}" if "{closure" in b.path else "")
+        nvisit += sum(1 for es in ev.values() for e in es if e[0] == "V")
+        for bi, es in sorted(ev.items()):
+            for e in es:
+                if e[0] == "V":
+                    r.inst("%s descends into %s #%d" % (short, hir.last(e[1].split("::{closure")[0]), len(r.instances)),
+                           {"fn": b.path, "line": b.blocks[bi]["term"].get("line"), "in_limbo": sorted({tokens[tid][0] for (tid, vb) in found if vb == bi})})
+        seen_keys = set()
+        for (tid, vb), callee_ in sorted(found.items(), key=lambda x: (x[0][1], str(x[0][0]))):
+            fnname = hir.last(b.path.split("::{closure")[0])
+            what = "%s lowered while a value %s is in limbo" % (hir.last(callee_.split("::{closure")[0]), "taken out of its frame" if tid[0] == "R" else "in an unregistered temporary")
+            if what in seen_keys:
+                continue
+            seen_keys.add(what)
+            r.bad(b.path, what, relfile(b.file), b.blocks[vb]["term"].get("line"),
+                  "%s descends into a user sub-expression (line %s) while a value %s: an early return inside that sub-expression (`?`, `return`, accept/reject) "
+                  "drops only the registered variables, so this value leaks" % (fnname, b.blocks[vb]["term"].get("line"), tokens[tid][0]))
+        # (b) partly initialised registered aggregates
+        vblocks = [bi for bi, es in ev.items() if any(e[0] == "V" for e in es)]
+        for u, tb in fl["reg"].items():
+            fw = fl["regf"][u]
+            for (sb, t, to, ty, val) in fl["sites"]:
+                if not (mir.is_place_op(to) and to[1][0] in fw and _place_projected(b, defs, to)):
+                    continue
+                after = mir.reachable_from(b, tb) - {tb}
+                between = [x for x in vblocks if x in after and (sb in mir.reachable_from(b, x))]
+                r.inst("%s component store #%d" % (hir.last(b.path), len(r.instances)), {"fn": b.path, "registered_line": b.blocks[tb]["term"].get("line"), "store_line": t.get("line"), "sub_expressions_between": len(between)})
+                if between:
+                    r.bad(b.path, "sub-expression lowered between registering an aggregate and storing its components", relfile(b.file), b.blocks[between[0]]["term"].get("line"),
+                          "%s registers the aggregate as live (line %s) and lowers sub-expressions before all components are stored (store at line %s): an early return inside one of them drops the "
+                          "aggregate including components that were never initialised" % (hir.last(b.path), b.blocks[tb]["term"].get("line"), t.get("line")))
+                    break
+    r.note("descents into sub-expressions examined: %d; visitor methods: %d; per-element closures: %d; helpers returning an unregistered temporary: %s; helpers unregistering a parameter: %s"
+           % (nvisit, len(vis), len(looping), sorted(hir.last(x) for x in summ_ret), sorted(hir.last(x) for x in summ_unreg)))
+    if nvisit < 40:
+        r.missing("at least 40 descents into sub-expressions (found %d)" % nvisit)
+    return r
+
 def rules(ctx):
     F = ctx["F"]
-    return [rule_f1(F), rule_f2(F), rule_f3(F), rule_f4(F), rule_f5(F), rule_f6(F), rule_f7(F), rule_f8(F), rule_f9(F), rule_f10(F)]
+    return [rule_f1(F), rule_f2(F), rule_f3(F), rule_f4(F), rule_f5(F), rule_f6(F), rule_f7(F), rule_f8(F), rule_f9(F), rule_f10(F), rule_f11(F)]
